@@ -18,7 +18,7 @@ RULES = {
     'R4': 'ms_timeout is non-zero only when remaining_todo <= 0 and timer_todo <= 0; remaining_todo sums todo of all levels',
     'R6': 'a ready descriptor is handed to its level in the iteration in which it is ready, however many others are: the epoll driver repeats its bounded batch (without waiting) while the batch came back full, or asks for as many events as there are entries',
 }
-FLOORS = {'R1': 3, 'R2': 5, 'R3': 8, 'R4': 7, 'R5': 4, 'R6': 1}
+FLOORS = {'R1': 3, 'R2': 6, 'R3': 8, 'R4': 7, 'R5': 4, 'R6': 1}
 
 
 def run(ctx):
@@ -103,6 +103,38 @@ def run(ctx):
         ctx.check('R2', 'upward-closed:p_stop=%d' % v, closed and HIGH in s, f,
                   'phase p_stop=%d runs levels %s' % (v, sorted(s, key=str)),
                   'phase p_stop=%d runs levels %s: not upward closed / HIGH missing' % (v, sorted(s, key=str)))
+    # "may be run" above is "is run": inside the pass over the levels, whether a level is run depends on its index and the rotation only
+    inner = min((b_ for (h_, b_) in loops.items() if rl.blk in b_), key=len)
+    extra = []
+    ihdr = [h_ for (h_, b_) in loops.items() if b_ is inner or b_ == inner][0]
+
+    def can_avoid(b0):
+        # from block b0, can this turn of the pass end (next level / pass over) without the call?
+        seen_, work_ = set(), [b0]
+        while work_:
+            x = work_.pop()
+            if x == rl.blk or x in seen_:
+                continue
+            if x == ihdr or x not in inner:
+                return True
+            seen_.add(x)
+            work_ += [t_ for (t_, _l) in f.blocks[x].succs]
+        return False
+    for fb in sorted(inner):
+        blk = f.blocks[fb]
+        # every branch of the pass whose arms differ in whether the call is certain
+        if blk.cond is None or fb == rl.blk or fb == ihdr:
+            continue
+        arms = {can_avoid(t_) for (t_, _l) in blk.succs}
+        if len(arms) < 2:
+            continue
+        names = {n['n'] for n in walk(blk.cond) if n.get('k') == 'var'} | {estr(n) for n in walk(blk.cond) if n.get('k') == 'mem'}
+        if not names <= {ix, rot}:
+            extra.append(estr(blk.cond))
+    ctx.check('R2', 'service-depends-on-rotation-only', not extra, rl,
+              'in the pass over the levels a level is run iff its index is at or above the rotation position',
+              'whether a level is run also depends on %s: the rotation moves on regardless, so a turn that is skipped is lost, not postponed - under sustained load at a higher level the lower ones are never run (strict, not weak priorities)'
+              % ' and '.join(extra))
     cnt = {L: sum(1 for v in levels if L in served[v]) for L in levels}
     ctx.check('R2', 'every-level-served', all(cnt[L] >= 1 for L in levels), f,
               'opportunities per 3 iterations: %s' % cnt, 'a level is never run in a full rotation: %s' % cnt)
@@ -299,6 +331,7 @@ def r6(ctx):
         follows = any(any(n.get('k') == 'mem' and n.get('f') == 'poll_entry_count' for n in walk(x)) for x in srcs)
     # (b) the call is repeated while the batch was full: an edge "result == capacity" (or >=) leads back to the call, with a zero timeout
     loops_back = False
+    extra_conds = []
     for b in f.blocks.values():
         if b.cond is None:
             continue
@@ -310,6 +343,25 @@ def r6(ctx):
                 zero = [st for st in f.events('STORE') if estr(st.lhs) == estr(w.args[3]) and cval(unwrap(st.rhs)) == 0]
                 if hits and zero and any(f.may_follow(z, w) for z in zero):
                     loops_back = True
+                    # going round depends on the batch having been full and on a bound of the number of rounds - on nothing else
+                    # (what a batch brought says nothing about the descriptors the kernel has not handed out yet)
+                    resv = [estr(st.lhs) for st in f.events('STORE') if st.rhs is not None and any(n.get('id') == w.e.get('id') for n in walk(st.rhs))]
+                    counters = {estr(st.lhs) for st in f.events('STORE') if st.d['op'] in ('--', '-=') and unwrap(st.lhs).get('k') == 'var'}
+                    zs = [z for z in zero if f.may_follow(z, w)]
+                    conds = list(atoms_of(b.cond, lab))
+                    for z in zs:
+                        # the rest of an && chain sits in blocks of its own, dominated by this one
+                        conds += [a for (a, (fb, _t, _l)) in f.guards(z) if fb != b.id and b.id in f.dom().get(fb, set())]
+                    for a in conds:
+                        if (a.ls in resv and a.rc == capc) or a.ls in counters:
+                            continue
+                        if not any(repr(a) == repr(x) for (_b, x) in extra_conds):
+                            extra_conds.append((b, a))
+    if loops_back and not follows:
+        ctx.check('R6', 'driver-goes-round-whenever-the-batch-was-full', not extra_conds, w,
+                  'the driver goes round again whenever the batch came back full (within its bound on the number of rounds)',
+                  'the driver goes round again only if also %s: descriptors that are queued already fill a batch without adding jobs, so with a backlog the driver stops after one batch and a ready descriptor of another level reaches its level only every N/%s-th iteration'
+                  % (' and '.join(repr(a) for (_b, a) in extra_conds), capc))
     ctx.check('R6', 'driver-collects-every-ready-descriptor', follows or loops_back, w,
               'the driver %s' % ('sizes its batch by the number of entries' if follows else 'repeats its batch of %s without waiting while it came back full' % capc),
               'the driver asks for at most %s events per iteration and does not go round: with more ready descriptors than that, a ready descriptor only reaches its level every '
